@@ -50,7 +50,7 @@ def t_start_at(host='HsmEventProcessor'):
         c.prove('start_at:post/nothing-exited', g['g_n_ex'] == 0, tags=('C03',))
         c.prove('start_at:post/one-entry-per-level', g['g_n_en'] == depth(cur), tags=('C03',))
         c.prove('start_at:post/start-state-on-the-path', encloses(S.e, cur), tags=('C03',))
-        c.prove('start_at:post/temp-settled', H.temp_fun(it, self) == cur, tags=('C03', 'C23'))
+        c.prove('start_at:post/temp-settled', H.temp_fun(it, self) == cur, tags=('C03', 'C23', 'idle'))
         c.prove('start_at:post/state_name', c.hget(self, 'state_name') == name_of(cur), tags=('C23',))
         c.prove('start_at:post/state_fn', c.hget(self, 'state_fn') == cur, tags=('C23',))
         c.cover('start_at:cover/post-state')
@@ -115,7 +115,8 @@ def t_dispatch(host='HsmEventProcessor'):
                 z3.Implies(z3.Not(tran), z3.And(g['g_n_ex'] == 0, g['g_n_en'] == 0, g['g_n_in'] == 0, new == cur)),
                 tags=('C02',))
         c.prove('dispatch:post/ignored-flag', c.hget(ev, 'ignored') == (g['g_answer'] == 3), tags=('C02',))
-        c.prove('dispatch:post/temp-settled', z3.And(H.temp_fun(it, self) == new, is_state(new)), tags=('C01', 'C02', 'C23'))
+        c.prove('dispatch:post/temp-settled', z3.And(H.temp_fun(it, self) == new, is_state(new)),
+                tags=('C01', 'C02', 'C23', 'idle'))
         c.prove('dispatch:post/state_name', c.hget(self, 'state_name') == name_of(new), tags=('C23',))
         c.prove('dispatch:post/state_fn', c.hget(self, 'state_fn') == new, tags=('C23',))
         c.cover('dispatch:cover/post-state')
@@ -162,7 +163,7 @@ def t_is_in(host='HsmEventProcessor'):
         res = c.to_bool(out.value)
         c.prove('is_in:post/true-iff-current-or-enclosing', res == encloses(X.e, cur), tags=('C22',))
         c.prove('is_in:post/chart-unchanged', z3.And(H.state_fun(it, self) == cur, H.temp_fun(it, self) == cur),
-                tags=('C22',))
+                tags=('C22', 'idle'))
         c.prove('is_in:post/no-action-no-offer', _mon_unchanged(c, snap), tags=('C22',))
         c.cover('is_in:cover')
     return Target('is_in@%s' % host, run, [CORE + 'is_in'])
@@ -187,7 +188,7 @@ def t_child_state(host='HsmEventProcessor'):
             c.prove('child_state:post/fails-with-AssertionError', out.raised == 'AssertionError', tags=('C22',))
             c.prove('child_state:post/fails-only-when-not-enclosing', z3.Not(encloses(P.e, cur)), tags=('C22',))
         c.prove('child_state:post/chart-unchanged', z3.And(H.state_fun(it, self) == cur, H.temp_fun(it, self) == cur),
-                tags=('C22',))
+                tags=('C22', 'idle'))
         c.prove('child_state:post/no-action-no-offer', _mon_unchanged(c, snap), tags=('C22',))
         c.cover('child_state:cover')
     return Target('child_state@%s' % host, run, [CORE + 'child_state'])
